@@ -441,11 +441,12 @@ class SocketConnection(object):
             self.sock.shutdown(socket.SHUT_RDWR)
         with contextlib.suppress(Exception):
             self.sock.close()
-        self.pyroInstances = {}   # release the session instances
+        # (the resources first: one that only its session instance refers to would be gone before it could be closed)
         for rsc in list(self.tracked_resources):     # a copy: closing a resource may untrack it
             with contextlib.suppress(Exception):
                 rsc.close()     # it is assumed a 'resource' has a close method.
         self.tracked_resources.clear()
+        self.pyroInstances = {}   # release the session instances
 
     def fileno(self) -> int:
         return self.sock.fileno()
